@@ -83,12 +83,16 @@ func (i *instSync) Synchronize(_ context.Context, f func([]uint16), _ []byte, _ 
 
 func (i *instSync) HandleMessage(uint16, []byte) {}
 
+// A packet keeps the sender's slice (as the bundled transport's queue does): what is read at
+// delivery is what the slice holds then.
 type pkt struct {
 	from, to uint16
-	data     string
+	raw      []byte
 }
 
-func (p pkt) key() string { return fmt.Sprintf("%d>%d:%x", p.from, p.to, p.data) }
+func (p pkt) data() string { return string(p.raw) }
+
+func (p pkt) key() string { return fmt.Sprintf("%d>%d:%x", p.from, p.to, p.data()) }
 
 // Event of the search.
 type Event struct {
@@ -220,7 +224,7 @@ func newRW(cfg rcfg) *rw {
 			}
 			for _, dst := range to {
 				if isHonest(cfg, dst) && dst != id {
-					w.fl = append(w.fl, pkt{from: id, to: dst, data: string(msg)})
+					w.fl = append(w.fl, pkt{from: id, to: dst, raw: msg})
 				}
 			}
 		}
@@ -289,7 +293,7 @@ func (w *rw) apply(e Event) (panicText string) {
 		for i, p := range w.fl {
 			if p.key() == e.Data {
 				w.fl = append(append([]pkt(nil), w.fl[:i]...), w.fl[i+1:]...)
-				w.deliver(p.from, p.to, p.data)
+				w.deliver(p.from, p.to, p.data())
 				return
 			}
 		}
